@@ -241,9 +241,10 @@ class SubMutezInstruction(MichelsonInstruction, prim='SUB_MUTEZ'):
         a, b = cast(Tuple[MutezType, MutezType], stack.pop2())
         a.assert_type_equal(MutezType)
         b.assert_type_equal(MutezType)
-        try:
-            res = OptionType.from_some(MutezType.from_value(int(a) - int(b)))
-        except OverflowError:
+        diff = int(a) - int(b)
+        if diff >= 0:
+            res = OptionType.from_some(MutezType.from_value(diff))
+        else:
             res = OptionType.none(MutezType)
         stack.push(res)
         stdout.append(format_stdout(cls.prim, [a, b], [res]))  # type: ignore
